@@ -1588,13 +1588,13 @@ static void vi(void)
 			lbuf_mark(xb, '^', xrow, xoff);
 			switch (c) {
 			case TK_CTL('b'):
-				if (vi_scrollbackward(MAX(1, vi_arg1) * (xrows - 1)))
+				if (vi_scrollbackward(MIN(MAX(1, vi_arg1), 1000000) * (xrows - 1)))
 					break;
 				xoff = lbuf_indents(xb, xrow);
 				mod = VC_COL;
 				break;
 			case TK_CTL('f'):
-				if (vi_scrollforward(MAX(1, vi_arg1) * (xrows - 1)))
+				if (vi_scrollforward(MIN(MAX(1, vi_arg1), 1000000) * (xrows - 1)))
 					break;
 				xoff = lbuf_indents(xb, xrow);
 				mod = VC_COL;
